@@ -4,8 +4,9 @@
    [eps] is pypulseq.eps as re-read from the source by the translator (Gen/GenTrap.v).
    Every theorem holds for ALL argument records and ALL systems: [make_trap a = OK g] already implies
    that the effective limits and the raster are positive (the model returns [Err E_unmodelled] otherwise). *)
-From Coq Require Import ZArith QArith Qabs Bool.
-From PV Require Import Base.QUtil Gen.GenTrap Model.Trap Proofs.TrapProofs.
+From Coq Require Import ZArith QArith Qround Qabs Bool List.
+From PV Require Import Base.QUtil Base.PWL Gen.GenTrap Model.Trap Model.TrapWave.
+From PV Require Import Proofs.TrapProofs Proofs.TrapRobust Proofs.TrapMinimal Proofs.TrapWaveProofs.
 Open Scope Q_scope.
 
 (* the exact least n with (n*r)^2 >= x that stands for math.ceil(math.sqrt(x)/r) *)
@@ -38,20 +39,35 @@ Print Assumptions trap_amplitude_exact.
 (* requested timing.  [supplied_timing a] excludes only the area-only call, for which the code documents
    (with a warning) that rise_time / fall_time are ignored; a ramp given as 0 counts as not given
    (Python `rise_time or fall_time`).  A requested flat_time >= 0 is returned unchanged (one in (-eps, 0)
-   becomes 0).  With a requested duration the three parts add up to it exactly on the area paths and
-   whenever the two ramps fit; the amplitude+duration path tolerates a duration up to eps shorter than
-   the two ramps and then returns flat_time = 0 (anything shorter is rejected: defect 14). *)
+   becomes 0).  With a requested duration the three parts add up to it exactly whenever the two ramps fit
+   into it, always when the function chooses the ramps of an area request, and — as long as the area +
+   duration feasibility test is the exact one (Gen constant trap_possible_tolerant = false, the form the
+   repository has today) — on every area path; the amplitude+duration path (and the area path once the
+   proposed eps-tolerant test is adopted) tolerates a duration up to eps shorter than the two ramps and then
+   returns flat_time = 0 (anything shorter is rejected: defect 14). *)
 Theorem trap_timing_as_requested : forall a g, make_trap a = OK g ->
   (forall t, a_flat_time a = Some t ->
      (0 <= t /\ t_flat g = t) \/ (- eps < t /\ t < 0 /\ t_flat g = 0)) /\
   (forall d, a_duration a = Some d -> a_flat_time a = None ->
      d <= t_rise g + t_flat g + t_fall g /\ t_rise g + t_flat g + t_fall g <= d + eps /\
-     (a_amplitude a = None \/ t_rise g + t_fall g <= d -> t_rise g + t_flat g + t_fall g == d)) /\
+     (t_rise g + t_fall g <= d -> t_rise g + t_flat g + t_fall g == d) /\
+     (a_amplitude a = None -> por (a_rise a) (a_fall a) = None -> t_rise g + t_flat g + t_fall g == d) /\
+     (trap_possible_tolerant = false -> a_amplitude a = None -> t_rise g + t_flat g + t_fall g == d)) /\
   (supplied_timing a ->
      (forall r, a_rise a = Some r -> ~ r == 0 -> t_rise g = r /\ (a_fall a = None -> t_fall g = r)) /\
      (forall f, a_fall a = Some f -> ~ f == 0 -> t_fall g = f /\ (a_rise a = None -> t_rise g = f))).
 Proof. exact trap_timing_as_requested_l. Qed.
 Print Assumptions trap_timing_as_requested.
+
+(* area + flat_time + ramps with a `duration` on top (over-determined request).  The repository today
+   IGNORES the duration (finding of round 2, proposed repair /tmp/c11_fixC.patch); once the code checks it
+   (Gen constant trap_flat_checks_duration = true) every returned event honours it within eps. *)
+Theorem trap_duration_with_flat_time_consistent : forall a g A d t,
+  trap_flat_checks_duration = true -> make_trap a = OK g ->
+  a_area a = Some A -> a_duration a = Some d -> a_flat_time a = Some t -> 0 <= t ->
+  Qabs (d - (t_rise g + t_flat g + t_fall g)) <= eps.
+Proof. exact trap_flat_duration_l. Qed.
+Print Assumptions trap_duration_with_flat_time_consistent.
 
 (* the derived fields are the waveform integrals *)
 Theorem trap_area_field : forall a g, make_trap a = OK g ->
@@ -119,6 +135,108 @@ Theorem trap_delay_returned : forall a g, make_trap a = OK g ->
   t_delay g = match a_delay a with Some v => v | None => trap_default_delay end.
 Proof. exact trap_delay_l. Qed.
 Print Assumptions trap_delay_returned.
+
+(* ---- binary64 in front of math.ceil (round 2) --------------------------------------------------------
+   The code evaluates math.ceil on a computed value v with a relative error delta; the model on the exact
+   value.  The integer can differ by at most one, and only when the exact argument lies in an explicit band
+   next to an integer / a perfect square.  The correspondence harness evaluates exactly these bands. *)
+Theorem ceil_robust_band : forall q v delta : Q,
+  0 <= delta -> Qabs (v - q) <= delta * Qabs q -> delta * Qabs q <= 1 ->
+  let n := Qceiling q in
+  let m := Qceiling v in
+  m = n \/
+  (m = (n + 1)%Z /\ q <= inject_Z n /\ inject_Z n < q + delta * Qabs q) \/
+  (m = (n - 1)%Z /\ q - delta * Qabs q <= inject_Z (n - 1) /\ inject_Z (n - 1) < q).
+Proof. exact ceil_robust. Qed.
+Print Assumptions ceil_robust_band.
+
+(* v >= 0 with v^2 within (1 +- delta)^2 of x/r^2 is "sqrt(x)/r computed with relative error delta" *)
+Theorem ceil_sqrt_div_robust_band : forall x r v delta : Q,
+  0 < r -> 0 <= x -> 0 <= delta -> delta < 1 -> 0 <= v ->
+  let y := x / (r * r) in
+  let n := ceil_sqrt_div x r in
+  (1 - delta) * (1 - delta) * y <= v * v -> v * v <= (1 + delta) * (1 + delta) * y ->
+  inject_Z n * delta <= 1 ->
+  let m := Qceiling v in
+  m = n \/
+  (m = (n + 1)%Z /\ y <= inject_Z n * inject_Z n /\ inject_Z n * inject_Z n < (1 + delta) * (1 + delta) * y) \/
+  (m = (n - 1)%Z /\ (1 - delta) * (1 - delta) * y <= inject_Z (n - 1) * inject_Z (n - 1) /\
+                    inject_Z (n - 1) * inject_Z (n - 1) < y).
+Proof. exact ceil_sqrt_div_robust. Qed.
+Print Assumptions ceil_sqrt_div_robust_band.
+
+(* ---- minimality of the ramps the function chooses on the other argument sets (round 2) -------------- *)
+(* amplitude / flat_area requests without ramps: the ramp respects max_slew exactly (no eps slack) and is
+   the shortest positive raster multiple that does *)
+Theorem trap_chosen_ramp_minimal : forall a g, make_trap a = OK g ->
+  por (a_rise a) (a_fall a) = None -> a_area a = None ->
+  Qabs (t_amplitude g) <= eff_max_slew a * t_rise g /\
+  forall k : Z, (1 <= k)%Z -> Qabs (t_amplitude g) <= eff_max_slew a * (inject_Z k * raster_of a) ->
+    t_rise g <= inject_Z k * raster_of a /\ t_fall g <= inject_Z k * raster_of a.
+Proof. exact trap_chosen_ramp_minimal_l. Qed.
+Print Assumptions trap_chosen_ramp_minimal.
+
+(* area requests whose ramps are chosen (area-only; area + duration without ramps): never longer than the
+   shortest raster multiple k*raster whose triangle of that area respects max_slew *)
+Theorem trap_area_ramp_minimal : forall a g A, make_trap a = OK g -> a_area a = Some A -> chosen_ramps a ->
+  forall k : Z, (1 <= k)%Z ->
+    Qabs A <= eff_max_slew a * ((inject_Z k * raster_of a) * (inject_Z k * raster_of a)) ->
+    t_rise g <= inject_Z k * raster_of a.
+Proof. exact trap_area_ramp_minimal_l. Qed.
+Print Assumptions trap_area_ramp_minimal.
+
+(* area-only with a plateau: shortest raster multiple for the returned amplitude *)
+Theorem trap_area_only_plateau_ramp_minimal : forall a g A, make_trap a = OK g ->
+  a_area a = Some A -> a_duration a = None -> a_flat_time a = None -> 0 < t_flat g ->
+  forall k : Z, (1 <= k)%Z -> Qabs (t_amplitude g) <= eff_max_slew a * (inject_Z k * raster_of a) ->
+    t_rise g <= inject_Z k * raster_of a.
+Proof. exact trap_area_only_plateau_ramp_minimal_l. Qed.
+Print Assumptions trap_area_only_plateau_ramp_minimal.
+
+(* area + duration without ramps: exactly the ramps of the shortest design, which fits into the duration *)
+Theorem trap_area_duration_ramps_of_shortest_design : forall a g A d, make_trap a = OK g ->
+  a_area a = Some A -> a_duration a = Some d -> a_flat_time a = None -> por (a_rise a) (a_fall a) = None ->
+  exists amp0 fl0, shortest_params A (eff_max_slew a) (eff_max_grad a) (raster_of a)
+                   = (amp0, t_rise g, fl0, t_fall g) /\ t_rise g + fl0 + t_fall g <= d.
+Proof. exact trap_area_duration_ramps_l. Qed.
+Print Assumptions trap_area_duration_ramps_of_shortest_design.
+
+(* ... and therefore NOT always the shortest ramp for the (smaller) returned amplitude *)
+Theorem trap_area_duration_ramp_minimal_for_returned_amplitude_refuted :
+  exists a g (k : Z), make_trap a = OK g /\ a_duration a <> None /\ por (a_rise a) (a_fall a) = None /\
+    (1 <= k)%Z /\ Qabs (t_amplitude g) <= eff_max_slew a * (inject_Z k * raster_of a) /\
+    inject_Z k * raster_of a < t_rise g.
+Proof. exact area_duration_ramp_not_minimal_witness. Qed.
+Print Assumptions trap_area_duration_ramp_minimal_for_returned_amplitude_refuted.
+
+(* ---- the rendered waveform (Base/PWL.v) at every time (round 2) -------------------------------------- *)
+Theorem trap_wave_sorted : forall a g, make_trap a = OK g -> sorted_strict (times (trap_to_pwl g)).
+Proof. exact wave_sorted. Qed.
+Print Assumptions trap_wave_sorted.
+
+(* the integral of the rendered waveform is the area field *)
+Theorem trap_wave_area : forall a g, make_trap a = OK g -> area (trap_to_pwl g) == t_area g.
+Proof. exact wave_area. Qed.
+Print Assumptions trap_wave_area.
+
+(* amplitude bound at every time and slope bound between any two times of the event *)
+Theorem trap_wave_safe_at_every_time : forall a g, make_trap a = OK g ->
+  (forall t, Qabs (eval (trap_to_pwl g) t) <= eff_max_grad a + eps) /\
+  (forall t u, inside (trap_to_pwl g) t -> inside (trap_to_pwl g) u ->
+     Qabs (eval (trap_to_pwl g) t - eval (trap_to_pwl g) u) <= eff_max_slew a * (1 + eps) * Qabs (t - u)).
+Proof. exact wave_everywhere. Qed.
+Print Assumptions trap_wave_safe_at_every_time.
+
+(* it lives on [delay, delay + rise + flat + fall], starts and ends at 0 and reaches the amplitude *)
+Theorem trap_wave_support : forall a g, make_trap a = OK g ->
+  tfirst (trap_to_pwl g) = t_delay g /\
+  tlast (trap_to_pwl g) = t_delay g + t_rise g + t_flat g + t_fall g /\
+  eval (trap_to_pwl g) (t_delay g) == 0 /\
+  eval (trap_to_pwl g) (t_delay g + t_rise g + t_flat g + t_fall g) == 0 /\
+  eval (trap_to_pwl g) (t_delay g + t_rise g) == t_amplitude g /\
+  (forall t, ~ inside (trap_to_pwl g) t -> eval (trap_to_pwl g) t == 0).
+Proof. exact wave_support. Qed.
+Print Assumptions trap_wave_support.
 
 (* ---- non-vacuity: each supported argument set returns an event on the default system ------------- *)
 Example ex_area_triangle : is_ok (make_trap (with_area ex_args 1)) = true.
